@@ -47,6 +47,17 @@ CAMPAIGNS = {
         "filter_direct",
         quick=[ex(ph(["filter"], True, "r"))],
         thorough=[ex(ph(["filter"], True, "r"))]),
+    # C08's own quantifier: every matrix over {0,1,2} of a shape x every subset x invert x axis x inplace
+    "filter_universe_2x3": dict(model_campaign(
+        "filter_universe_2x3", heaps="univ", palettes=[["plain", "plain"], ["unicode", "scale_up"], ["case_ids", "plain"]],
+        quick=[ex(ph(["filter_subsets"], False, "r"))], thorough=[ex(ph(["filter_subsets"], True, "r"))],
+        cap_quick=8000, cap_thorough=200000),
+        univ={"quick": {"n": 2, "m": 3, "vals": 3, "k": 120}, "thorough": {"n": 2, "m": 3, "vals": 3, "k": 0}}),
+    "filter_universe_3x3": dict(model_campaign(
+        "filter_universe_3x3", heaps="univ", palettes=[["plain", "plain"], ["numeric_ids", "scale_down"]],
+        quick=[ex(ph(["filter_subsets"], False, "r"))], thorough=[ex(ph(["filter_subsets"], False, "r"))],
+        cap_quick=8000, cap_thorough=400000),
+        univ={"quick": {"n": 3, "m": 3, "vals": 2, "k": 60}, "thorough": {"n": 3, "m": 3, "vals": 3, "k": 1500}}),
     "filter_after_history": model_campaign(
         "filter_after_history",
         quick=[ex(ph(HIST), ph(["filter_ids"], True, "r", 6)),
@@ -363,7 +374,8 @@ PROPERTIES = {
     },
     "C08": {
         "level": "model_checking",
-        "campaigns": [CAMPAIGNS["filter_direct"], CAMPAIGNS["recorded_suite"], CAMPAIGNS["filter_after_history"],
+        "campaigns": [CAMPAIGNS["filter_direct"], CAMPAIGNS["filter_universe_2x3"], CAMPAIGNS["filter_universe_3x3"],
+                      CAMPAIGNS["recorded_suite"], CAMPAIGNS["filter_after_history"],
                       CAMPAIGNS["empty_head_after_history"]],
         "assumptions": ["copy.deepcopy, scipy toarray and numpy are trusted for the projection",
                         "behaviour of the compiled kernels is taken from the .so (rebuilt from .c when stale)"],
@@ -484,11 +496,18 @@ def run_campaign(camp, tier, seed, wd):
     gstats = []
     import concurrent.futures as cf
 
+    genv = {"GEN_HEAPS": camp.get("heaps", "std")}
+    if camp.get("univ"):
+        up = os.path.join(wd, "univ_%s.json" % camp["name"])
+        with open(up, "w") as f:
+            json.dump(dict(camp["univ"][tier], salt=seed % 97), f)
+        genv["GEN_UNIV"] = up
+
     def gen_one(arg):
         i, phases = arg
         phases = [dict(p_, salt=(seed * 31 + 7 * k_ + i) % 9973) for k_, p_ in enumerate(phases)]
         return P.generate(phases, wd, module=camp["gen"][0], cfg=camp["gen"][1],
-                          name="gen_%s_%d" % (camp["name"], i), extra_env={"GEN_HEAPS": camp.get("heaps", "std")})
+                          name="gen_%s_%d" % (camp["name"], i), extra_env=genv)
     with cf.ThreadPoolExecutor(max_workers=4) as ex_:
         for b, st in ex_.map(gen_one, list(enumerate(camp["phases"][tier]))):
             behaviours.extend(b)
